@@ -22,6 +22,7 @@ theorem upd_apply {α : Type} (f : Nat → α) (i j : Nat) (a : α) : upd f i a 
 def WOK (k : Conn) (dirty : Bool) (owner : Option Nat) (clean : Prop) (inAll : Prop) (tclosed : Bool) :
     Option Worker → Prop
   | none => True
+  | some (.fresh _) => clean ∧ k.serving = false ∧ k.closed = false ∧ k.netClosed = false ∧ ¬ inAll
   | some (.hold _) => clean ∧ k.serving = true ∧ (k.netClosed = true → tclosed = true) ∧ inAll
   | some (.write e _) => k.pending = [] ∧ k.serving = true ∧ dirty = false ∧ owner = some e
   | some (.read e _) => k.pending = [e] ∧ k.serving = true ∧ dirty = false ∧ owner = some e
@@ -38,8 +39,8 @@ def COK (k : Conn) (out : List Nat) (dirty mclosed : Bool) (owner : Option Nat) 
     (inIdle inAll : Prop) (tclosed : Bool) (alloc : Prop) : Prop :=
   out = k.pending ∧ mclosed = k.netClosed ∧
   k.pending.length ≤ 1 ∧ (k.pending ≠ [] → k.serving = true) ∧
-  (inIdle → k.worker = none ∧ k.serving = false ∧ (k.pending = [] ∧ dirty = false ∧ owner = none ∧ ab = false)) ∧
-  WOK k dirty owner (k.pending = [] ∧ dirty = false ∧ owner = none ∧ ab = false) inAll tclosed k.worker ∧
+  (inIdle → k.worker = none ∧ k.serving = false ∧ (k.pending = [] ∧ k.halfRead = false ∧ dirty = false ∧ owner = none ∧ ab = false)) ∧
+  WOK k dirty owner (k.pending = [] ∧ k.halfRead = false ∧ dirty = false ∧ owner = none ∧ ab = false) inAll tclosed k.worker ∧
   (¬ alloc → k.worker = none ∧ out = [] ∧ ¬ inIdle ∧ ¬ inAll ∧ dirty = false ∧ owner = none ∧ ab = false ∧ mclosed = false) ∧
   (inAll → alloc)
 
@@ -62,7 +63,7 @@ theorem inv_init : Inv State.init := by
 attribute [local simp] State.setConn State.setCaller State.emit State.finish State.spawn monStep
 
 theorem core_start (h : Inv s) (e : Nat) : Inv (stepCore s (.start e)) := by
-  simp only [stepCore]
+  simp only [stepCore, stepCoreG]
   split
   · exact ⟨h.fault, h.ok, h.tcl, h.conn, h.chan⟩
   · exact h
@@ -74,11 +75,11 @@ macro "conn_cases" h:ident c:ident : tactic =>
              · simpa [ConnOK, hc] using Inv.conn $h c'))
 
 theorem core_cancel (h : Inv s) (e : Nat) : Inv (stepCore s (.cancel e)) := by
-  simp only [stepCore]
+  simp only [stepCore, stepCoreG]
   exact ⟨h.fault, h.ok, h.tcl, h.conn, h.chan⟩
 
 theorem core_workerWrite (h : Inv s) (c : Nat) (fail : Bool) : Inv (stepCore s (.workerWrite c fail)) := by
-  simp only [stepCore]
+  simp only [stepCore, stepCoreG]
   split
   · rename_i e a hw
     have hcc := h.conn c
@@ -95,7 +96,7 @@ theorem core_workerWrite (h : Inv s) (c : Nat) (fail : Bool) : Inv (stepCore s (
   · exact h
 
 theorem core_workerReadErr (h : Inv s) (c : Nat) : Inv (stepCore s (.workerReadErr c)) := by
-  simp only [stepCore]
+  simp only [stepCore, stepCoreG]
   split
   · rename_i e a hw
     have hcc := h.conn c
@@ -107,7 +108,7 @@ theorem core_workerReadErr (h : Inv s) (c : Nat) : Inv (stepCore s (.workerReadE
   · exact h
 
 theorem core_workerReadOk (h : Inv s) (c : Nat) : Inv (stepCore s (.workerReadOk c)) := by
-  simp only [stepCore]
+  simp only [stepCore, stepCoreG]
   split
   · rename_i e a hw
     have hcc := h.conn c
@@ -129,7 +130,7 @@ theorem core_workerReadOk (h : Inv s) (c : Nat) : Inv (stepCore s (.workerReadOk
   · exact h
 
 theorem core_workerPost (h : Inv s) (c : Nat) : Inv (stepCore s (.workerPost c)) := by
-  simp only [stepCore]
+  simp only [stepCore, stepCoreG]
   split
   · rename_i e a r hw
     have hcc := h.conn c
@@ -153,7 +154,7 @@ theorem core_workerPost (h : Inv s) (c : Nat) : Inv (stepCore s (.workerPost c))
   · exact h
 
 theorem core_srvReply (h : Inv s) (c : Nat) (g : Bool) : Inv (stepCore s (.srvReply c g)) := by
-  simp only [stepCore]
+  simp only [stepCore, stepCoreG]
   split
   · refine ⟨h.fault, ?_, ?_, ?_, h.chan⟩
     · simp [h.ok]
@@ -163,7 +164,7 @@ theorem core_srvReply (h : Inv s) (c : Nat) (g : Bool) : Inv (stepCore s (.srvRe
       · subst hc; have := h.conn c'; simp [ConnOK, COK] at *
         rcases hw : (s.conn c').worker with _ | w
         · simp [hw, WOK] at *; grind
-        · rcases w with _ | _ | _ | ⟨_, _, r⟩ | b | b
+        · rcases w with _ | _ | _ | _ | ⟨_, _, r⟩ | b | b
           all_goals first | (cases r <;> simp [hw, WOK] at * <;> grind) | (cases b <;> simp [hw, WOK] at * <;> grind) | (simp [hw, WOK] at *; grind)
       · simpa [ConnOK, hc] using h.conn c'
   · exact h
@@ -171,31 +172,32 @@ theorem core_srvReply (h : Inv s) (c : Nat) (g : Bool) : Inv (stepCore s (.srvRe
 /-- a change of connection `c` that COK does not look at -/
 theorem connOK_irrelevant (h : Inv s) (c : Nat) (k : Conn)
     (h1 : k.serving = (s.conn c).serving) (h2 : k.netClosed = (s.conn c).netClosed)
-    (h3 : k.pending = (s.conn c).pending) (h4 : k.worker = (s.conn c).worker) :
+    (h3 : k.pending = (s.conn c).pending) (h4 : k.worker = (s.conn c).worker)
+    (h5 : k.halfRead = (s.conn c).halfRead) (h6 : k.closed = (s.conn c).closed) :
     ∀ c', ConnOK (s.setConn c k) (mon s.hist) c' := by
   intro c'
   by_cases hc : c' = c
   · subst hc
     have := h.conn c'
     simp only [ConnOK, COK] at this
-    simp only [ConnOK, COK, State.setConn, upd_same, h1, h2, h3, h4]
+    simp only [ConnOK, COK, State.setConn, upd_same, h1, h2, h3, h4, h5, h6]
     refine ⟨this.1, this.2.1, this.2.2.1, this.2.2.2.1, this.2.2.2.2.1, ?_, this.2.2.2.2.2.2⟩
     have hw := this.2.2.2.2.2.1
     generalize (s.conn c').worker = w at *
     rcases w with _ | w
     · trivial
-    · rcases w with _ | _ | _ | ⟨_, _, r⟩ | b | b
+    · rcases w with _ | _ | _ | _ | ⟨_, _, r⟩ | b | b
       all_goals first | (cases r <;> simp only [WOK] at hw ⊢ <;> grind) | (cases b <;> simp only [WOK] at hw ⊢ <;> grind) | (simp only [WOK] at hw ⊢; grind)
   · simpa [ConnOK, hc] using h.conn c'
 
 theorem core_srvAbort (h : Inv s) (c : Nat) : Inv (stepCore s (.srvAbort c)) := by
-  simp only [stepCore]
+  simp only [stepCore, stepCoreG]
   split
-  · exact ⟨h.fault, h.ok, h.tcl, connOK_irrelevant h c _ rfl rfl rfl rfl, h.chan⟩
+  · exact ⟨h.fault, h.ok, h.tcl, connOK_irrelevant h c _ rfl rfl rfl rfl rfl rfl, h.chan⟩
   · exact h
 
 theorem core_workerRelA (h : Inv s) (c : Nat) : Inv (stepCore s (.workerRelA c)) := by
-  simp only [stepCore]
+  simp only [stepCore, stepCoreG]
   split
   · rename_i ok hw
     have hcc := h.conn c
@@ -231,7 +233,7 @@ theorem COK_ab {k : Conn} {out dirty mcl owner ab inIdle inAll tcl alloc}
     generalize k.worker = w at *
     rcases w with _ | w
     · trivial
-    · rcases w with _ | _ | _ | ⟨_, _, r⟩ | b | b
+    · rcases w with _ | _ | _ | _ | ⟨_, _, r⟩ | b | b
       all_goals first | (cases r <;> simp only [WOK] at hw ⊢ <;> simp_all) | (cases b <;> simp only [WOK] at hw ⊢ <;> simp_all) | (simp only [WOK] at hw ⊢; simp_all)
   · intro hi; have := h.2.2.2.2.2.2.1 hi; simp_all
 
@@ -259,7 +261,7 @@ theorem inv_setCaller (h : Inv s) (e : Nat) (k : Caller) : Inv (s.setCaller e k)
   ⟨h.fault, h.ok, h.tcl, h.conn, h.chan⟩
 
 theorem core_recvRes (h : Inv s) (e : Nat) : Inv (stepCore s (.recvRes e)) := by
-  simp only [stepCore]
+  simp only [stepCore, stepCoreG]
   split
   · split
     · rename_i q hq
@@ -273,7 +275,7 @@ theorem core_recvRes (h : Inv s) (e : Nat) : Inv (stepCore s (.recvRes e)) := by
   · exact h
 
 theorem core_giveUp (h : Inv s) (e : Nat) : Inv (stepCore s (.giveUp e)) := by
-  simp only [stepCore]
+  simp only [stepCore, stepCoreG]
   split
   · split
     · exact finish_ctx h _
@@ -282,7 +284,7 @@ theorem core_giveUp (h : Inv s) (e : Nat) : Inv (stepCore s (.giveUp e)) := by
   · exact h
 
 theorem core_dialFail (h : Inv s) (e : Nat) (b : Bool) : Inv (stepCore s (.dialFail e b)) := by
-  simp only [stepCore]
+  simp only [stepCore, stepCoreG]
   split
   · split
     · exact finish_err (inv_setCaller h _ _) _
@@ -290,31 +292,44 @@ theorem core_dialFail (h : Inv s) (e : Nat) (b : Bool) : Inv (stepCore s (.dialF
   · exact h
 
 theorem core_idleTimer (h : Inv s) (c : Nat) : Inv (stepCore s (.idleTimer c)) := by
-  simp only [stepCore]
+  simp only [stepCore, stepCoreG]
   split
-  · split
-    · rename_i hlt hserv
-      have hcc := h.conn c
-      simp only [ConnOK, COK] at hcc
-      simp only [State.netClose]
+  · by_cases hf : beforeExitIdle (s.conn c).worker = true
+    · simp only [hf, Bool.not_false, Bool.and_self, if_true]
+      exact h
+    · have hnf : ∀ e, (s.conn c).worker ≠ some (.fresh e) := by
+        intro e he; rw [he] at hf; exact hf rfl
+      simp only [hf, Bool.false_and, Bool.false_eq_true, if_false]
       split
-      · exact ⟨h.fault, h.ok, h.tcl, connOK_irrelevant h c _ rfl rfl rfl rfl, h.chan⟩
-      · refine ⟨h.fault, ?_, ?_, ?_, h.chan⟩
-        · simp [h.ok]
-        · simp [h.tcl]
-        · intro c'
+      · have hcc := h.conn c
+        simp only [ConnOK, COK] at hcc
+        simp only [State.netClose]
+        split
+        · refine ⟨h.fault, h.ok, h.tcl, ?_, h.chan⟩
+          intro c'
           by_cases hc : c' = c
           · subst hc
             rcases hw : (s.conn c').worker with _ | w
-            · simp [ConnOK, COK, WOK, hw] at *; grind
-            · rcases w with _ | _ | _ | ⟨_, _, r⟩ | b | b
-              all_goals first | (cases r <;> simp [ConnOK, COK, WOK, hw] at * <;> grind) | (cases b <;> simp [ConnOK, COK, WOK, hw] at * <;> grind) | (simp [ConnOK, COK, WOK, hw] at *; grind)
+            · simp [ConnOK, COK, WOK, hw] at * <;> grind
+            · rcases w with _ | _ | _ | _ | ⟨_, _, r⟩ | b | b
+              all_goals first | (cases r <;> simp [ConnOK, COK, WOK, hw] at * <;> grind) | (cases b <;> simp [ConnOK, COK, WOK, hw] at * <;> grind) | (simp [ConnOK, COK, WOK, hw] at * <;> grind)
           · simpa [ConnOK, hc] using h.conn c'
-    · exact h
+        · refine ⟨h.fault, ?_, ?_, ?_, h.chan⟩
+          · simp [h.ok]
+          · simp [h.tcl]
+          · intro c'
+            by_cases hc : c' = c
+            · subst hc
+              rcases hw : (s.conn c').worker with _ | w
+              · simp [ConnOK, COK, WOK, hw] at * <;> grind
+              · rcases w with _ | _ | _ | _ | ⟨_, _, r⟩ | b | b
+                all_goals first | (cases r <;> simp [ConnOK, COK, WOK, hw] at * <;> grind) | (cases b <;> simp [ConnOK, COK, WOK, hw] at * <;> grind) | (simp [ConnOK, COK, WOK, hw] at * <;> grind)
+            · simpa [ConnOK, hc] using h.conn c'
+      · exact h
   · exact h
 
 theorem core_workerRelB (h : Inv s) (c : Nat) : Inv (stepCore s (.workerRelB c)) := by
-  simp only [stepCore]
+  simp only [stepCore, stepCoreG]
   split
   · rename_i ok hw
     have hcc := h.conn c
@@ -356,7 +371,7 @@ theorem core_workerRelB (h : Inv s) (c : Nat) : Inv (stepCore s (.workerRelB c))
   · exact h
 
 theorem core_dialDeliver (h : Inv s) (c : Nat) (b : Bool) : Inv (stepCore s (.dialDeliver c b)) := by
-  simp only [stepCore]
+  simp only [stepCore, stepCoreG]
   split
   · rename_i e hw
     have hcc := h.conn c
@@ -372,42 +387,66 @@ theorem core_dialDeliver (h : Inv s) (c : Nat) (b : Bool) : Inv (stepCore s (.di
   · exact h
 
 theorem core_dialDone (h : Inv s) (e : Nat) (b : Bool) : Inv (stepCore s (.dialDone e b)) := by
-  simp only [stepCore]
+  simp only [stepCore, stepCoreG]
   split
   · split
     · have hcc := h.conn s.nconn
       simp only [ConnOK, COK] at hcc
       have hp := hcc.2.2.2.2.2.2.1 (Nat.lt_irrefl _)
-      split
-      · rename_i htc
-        simp only [State.emit, State.setConn] at htc
-        simp only [State.rcClose, State.netClose, State.setConn, State.emit, upd_same, Conn.fresh,
-          Bool.false_eq_true, if_false]
-        refine ⟨h.fault, ?_, ?_, ?_, h.chan⟩
-        · simp [h.ok]
-        · simp [h.tcl]
-        · intro c'
-          by_cases hc : c' = s.nconn
-          · subst hc; simp [ConnOK, COK, WOK] at *; grind
-          · have := h.conn c'
-            simp [ConnOK, hc] at this ⊢
-            simp only [COK] at this ⊢
-            grind
-      · refine ⟨h.fault, ?_, ?_, ?_, h.chan⟩
-        · simp [h.ok]
-        · simp [h.tcl]
-        · intro c'
-          by_cases hc : c' = s.nconn
-          · subst hc; simp [ConnOK, COK, WOK, Conn.fresh] at *; grind
-          · have := h.conn c'
-            simp [ConnOK, hc] at this ⊢
-            simp only [COK] at this ⊢
-            grind
+      refine ⟨h.fault, ?_, ?_, ?_, h.chan⟩
+      · simp [h.ok]
+      · simp [h.tcl]
+      · intro c'
+        by_cases hc : c' = s.nconn
+        · subst hc; simp [ConnOK, COK, WOK, Conn.fresh] at *; grind
+        · have := h.conn c'
+          simp [ConnOK, hc] at this ⊢
+          simp only [COK] at this ⊢
+          grind
     · exact inv_setCaller h _ _
   · exact h
 
+theorem core_dialExit (h : Inv s) (c : Nat) : Inv (stepCore s (.dialExit c)) := by
+  simp only [stepCore, stepCoreG]
+  split
+  · rename_i e hw
+    have hcc := h.conn c
+    simp only [ConnOK, COK, hw, WOK] at hcc
+    have hcl : (s.conn c).closed = false := hcc.2.2.2.2.2.1.2.2.1
+    have hsv : (s.conn c).serving = false := hcc.2.2.2.2.2.1.2.1
+    have hnc : (s.conn c).netClosed = false := hcc.2.2.2.2.2.1.2.2.2.1
+    simp only [hcl, hsv, Bool.not_false, Bool.true_and, Bool.false_eq_true, if_false]
+    split
+    · simp only [State.rcClose, State.netClose, State.setConn, State.setCaller, State.emit, upd_same, hcl, hnc,
+        Bool.false_eq_true, if_false]
+      refine ⟨h.fault, ?_, ?_, ?_, h.chan⟩
+      · simp [h.ok]
+      · simp [h.tcl]
+      · intro c'
+        by_cases hc : c' = c
+        · subst hc; simp [ConnOK, COK, WOK] at *; grind
+        · simpa [ConnOK, hc] using h.conn c'
+    · refine ⟨h.fault, h.ok, h.tcl, ?_, h.chan⟩
+      intro c'
+      by_cases hc : c' = c
+      · subst hc; simp [ConnOK, COK, WOK] at *; grind
+      · simpa [ConnOK, hc] using h.conn c'
+  · exact h
+
+theorem core_workerReadPart (h : Inv s) (c : Nat) : Inv (stepCore s (.workerReadPart c)) := by
+  simp only [stepCore, stepCoreG]
+  split
+  · rename_i e a hw
+    have hcc := h.conn c
+    simp only [ConnOK, COK, hw, WOK] at hcc
+    split
+    · exact h
+    · refine ⟨h.fault, h.ok, h.tcl, ?_, h.chan⟩
+      conn_cases h c
+  · exact h
+
 theorem core_getIdle (h : Inv s) (e : Nat) (pick : Option Nat) : Inv (stepCore s (.getIdle e pick)) := by
-  simp only [stepCore]
+  simp only [stepCore, stepCoreG]
   split
   · split
     · exact finish_err h _
@@ -470,7 +509,7 @@ theorem foldl_cl (l : List Nat) (m : Mon) :
     · simp [hc]
 
 theorem core_tClose (h : Inv s) : Inv (stepCore s .tClose) := by
-  simp only [stepCore]
+  simp only [stepCore, stepCoreG]
   split
   · exact h
   · rename_i htc
@@ -487,11 +526,11 @@ theorem core_tClose (h : Inv s) : Inv (stepCore s .tClose) := by
       by_cases hin : c' ∈ s.all
       · rcases hw : (s.conn c').worker with _ | w
         · simp [hin, hw, WOK] at * <;> grind
-        · rcases w with _ | _ | _ | ⟨_, _, r⟩ | b | b
+        · rcases w with _ | _ | _ | _ | ⟨_, _, r⟩ | b | b
           all_goals first | (cases r <;> simp [hin, hw, WOK] at * <;> grind) | (cases b <;> simp [hin, hw, WOK] at * <;> grind) | (simp [hin, hw, WOK] at * <;> grind)
       · rcases hw : (s.conn c').worker with _ | w
         · simp [hin, hw, WOK] at * <;> grind
-        · rcases w with _ | _ | _ | ⟨_, _, r⟩ | b | b
+        · rcases w with _ | _ | _ | _ | ⟨_, _, r⟩ | b | b
           all_goals first | (cases r <;> simp [hin, hw, WOK] at * <;> grind) | (cases b <;> simp [hin, hw, WOK] at * <;> grind) | (simp [hin, hw, WOK] at * <;> grind)
 
 /-- every step preserves the invariant -/
@@ -504,9 +543,11 @@ theorem step_inv (h : Inv s) (a : Act) : Inv (step s a) := by
   | recvRes e => exact core_recvRes h e
   | giveUp e => exact core_giveUp h e
   | dialDone e b => exact core_dialDone h e b
+  | dialExit c => exact core_dialExit h c
   | dialDeliver c b => exact core_dialDeliver h c b
   | dialFail e b => exact core_dialFail h e b
   | workerWrite c b => exact core_workerWrite h c b
+  | workerReadPart c => exact core_workerReadPart h c
   | workerReadOk c => exact core_workerReadOk h c
   | workerReadErr c => exact core_workerReadErr h c
   | workerPost c => exact core_workerPost h c
